@@ -377,23 +377,26 @@ def dense_union(ind1, data1, ind2, data2):
 
 @numba.njit()
 def sparse_hellinger(ind1, data1, ind2, data2):
-    aux_inds, aux_data = sparse_mul(ind1, data1, ind2, data2)
-    result = 0.0
     norm1 = np.sum(data1)
     norm2 = np.sum(data2)
-    sqrt_norm_prod = np.sqrt(norm1 * norm2)
-
-    for i in range(aux_data.shape[0]):
-        result += np.sqrt(aux_data[i])
 
     if norm1 == 0.0 and norm2 == 0.0:
         return 0.0
     elif norm1 == 0.0 or norm2 == 0.0:
         return 1.0
-    elif result > sqrt_norm_prod:
+
+    # multiply the normalised vectors: the product of the raw (float32) data
+    # overflows or underflows for large or small scales
+    aux_inds, aux_data = sparse_mul(ind1, data1 / norm1, ind2, data2 / norm2)
+    result = 0.0
+
+    for i in range(aux_data.shape[0]):
+        result += np.sqrt(aux_data[i])
+
+    if result > 1.0:
         return 0.0
     else:
-        return np.sqrt(1.0 - (result / sqrt_norm_prod))
+        return np.sqrt(1.0 - result)
 
 
 @numba.njit()
